@@ -207,6 +207,48 @@ def run(chk):
                 eps = 0.01
                 pert = [cs.p2(a, (q[0] + eps, q[1]), d, PROPS), cs.p2(a, (q[0] - eps, q[1]), d, PROPS)]
                 plan.append((i1, i2, pert, motion, "2d"))
+    # (2) ridge cooling models whose spreading velocity varies along an oblique ridge, moved across the +-180 meridian: in the
+    # moved world the nearest ridge point of the far-side queries is found through the longitude alias, and the velocity has
+    # to come from that same projection
+    for wi in range(8 if quick else 60):
+        rng.seed("%d/c08-2/%d" % (chk.seed, wi))
+        kind = ["half space model", "plate model"][wi % 2]
+        lon0 = float(round(rng.uniform(-120.0, 120.0), 1))
+        md = float(round(rng.uniform(8e4, 2.0e5)))
+        Tt = float(round(rng.uniform(250, 400), 1))
+        Tb = Tt + float(round(rng.uniform(300, 1500), 1))
+        vels = [round(rng.uniform(0.01, 0.12), 4), round(rng.uniform(0.01, 0.12), 4)]
+        if abs(vels[0] - vels[1]) < 0.03:
+            vels[1] = round(vels[0] + 0.05, 4)
+        tilt = rng.choice([-1.0, 1.0]) * rng.uniform(2.0, 6.0)
+        ridge = [[round(lon0 - tilt, 1), -18.0], [round(lon0 + tilt, 1), 18.0]]
+        m = {"model": kind, "max depth": md, "top temperature": Tt, "bottom temperature": Tb, "ridge coordinates": [ridge],
+             "spreading velocity": [[0.0, [vels]]]}
+        f = {"model": "oceanic plate", "name": "o", "coordinates": [[lon0 - 12, -25], [lon0 + 12, -25], [lon0 + 12, 25], [lon0 - 12, 25]],
+             "max depth": md, "temperature models": [m]}
+        wj = {"version": "1.1", "thermal diffusivity": 0.804e-6, "coordinate system": {"model": "spherical", "depth method": "begin segment"},
+              "features": [f]}
+        tgt = [180.0, -180.0][(wi // 2) % 2]
+        off = float(round(tgt - lon0 + rng.uniform(-8.0, 8.0), 1))
+        motion = ("longitude", off)
+        fn = lambda p, off=off: [round(p[0] + off, 6), p[1]]
+        ca, sa = math.cos(math.radians(off)), math.sin(math.radians(off))
+        qfn = lambda q, ca=ca, sa=sa: (q[0] * ca - q[1] * sa, q[0] * sa + q[1] * ca, q[2])
+        w2 = map_points(wj, fn)
+        am, bm = cs.add_world(wj), cs.add_world(w2)
+        a, b = cs.add_world(wj, model=False), cs.add_world(w2, model=False)
+        for qi in range(30):
+            dd = float(round(rng.uniform(0.02, 0.9) * md))
+            q = cart_point(True, lon0 + rng.uniform(-11.5, 11.5), rng.uniform(-24.0, 24.0), dd, 6371000.0, TOP)
+            cs.p3(am, q, dd, PROPS)
+            cs.p3(bm, qfn(q), dd, PROPS)
+            i1 = cs.p3(a, q, dd, PROPS)
+            i2 = cs.p3(b, qfn(q), dd, PROPS)
+            eps = 0.01
+            pert = [cs.p3(a, (q[0] + eps, q[1], q[2]), dd, PROPS), cs.p3(a, (q[0] - eps, q[1], q[2]), dd, PROPS),
+                    cs.p3(a, (q[0], q[1] + eps, q[2]), dd, PROPS), cs.p3(a, (q[0], q[1] - eps, q[2]), dd, PROPS),
+                    cs.p3(a, (q[0], q[1], q[2] - eps), dd + eps, PROPS), cs.p3(a, (q[0], q[1], q[2] + eps), max(0.0, dd - eps), PROPS)]
+            plan.append((i1, i2, pert, motion, "3d"))
     impl, model = cs.run()
     chk.evaluations = len(impl)
     bad = chk.correspond(impl, model, cs, max_ulp=0)
